@@ -37,12 +37,31 @@ class Cut:
         self.source_sha = ""
         self.n_prefix = self.n_body = self.n_suffix = 0
         self.params = []
+        self.target_names = []
         self.body_code = self.prefix_code = self.suffix_code = None
         self.body_source = ""
 
     def report(self):
         return {"header_dropped": self.header, "prefix_statements": self.n_prefix, "body_statements": self.n_body,
                 "suffix_statements": self.n_suffix, "rewrites": self.rewrites, "source_sha256": self.source_sha}
+
+
+def local_by_role(state, pred, what, exclude=()):
+    """name of the UNIQUE live local whose current value satisfies `pred` — contracts identify the code's temporaries by role
+    (\"the list the scalers are collected in\"), never by name, so that renaming a local is not an alarm.  Not unique -> Undecided."""
+    cand = []
+    for k, v in state.items():
+        if k in exclude:
+            continue
+        try:
+            ok = bool(pred(v))
+        except Exception:
+            ok = False
+        if ok:
+            cand.append(k)
+    if len(cand) != 1:
+        raise Undecided("loopcut: cannot identify %s among the live locals (candidates: %s)" % (what, cand))
+    return cand[0]
 
 
 class _BreakRewriter(ast.NodeTransformer):
@@ -141,8 +160,10 @@ def cut(func, ordinal=0):
 
     c = Cut()
     c.params = params
+    c.func_ast, c.loop_ast = fdef, loop      # for role identification by structure (which collaborator call binds a local), never rewritten
     c.kind = "for" if isinstance(loop, ast.For) else "while"
     c.target = ast.unparse(loop.target) if isinstance(loop, ast.For) else ""
+    c.target_names = [x.id for x in ast.walk(loop.target) if isinstance(x, ast.Name)] if isinstance(loop, ast.For) else []
     c.iter = ast.unparse(loop.iter) if isinstance(loop, ast.For) else ast.unparse(loop.test)
     c.header = ("for %s in %s:" % (c.target, c.iter)) if c.kind == "for" else ("while %s:" % c.iter)
     c.source_sha = hashlib.sha256(src.encode()).hexdigest()[:16]
